@@ -323,21 +323,26 @@ func c18Round2(c *Ctx) {
 		c.Fail(rule, inst, c.P.Pos(fn.Pos()), "constant StatusUpToDate not found")
 		return
 	}
-	// start: the not-nil edge of the nil test on the matched TDX module level
-	var start []Edge
-	for _, b := range fn.Blocks {
-		ifi := lastIfOf(b)
-		if ifi == nil {
-			continue
-		}
-		s := normCond(ifi.Cond, false)
-		if strings.Contains(s, "TDXModuleIdentities") && strings.Contains(s, ".TCBLevels") && strings.HasSuffix(s, " != nil") {
-			start = append(start, Edge{b, 1})
+	// start: every place where the TCB levels of a TDX module identity are consulted (however the matching level is
+	// then found: a loop with a nil test, an index search, a helper). From there on success needs the status test.
+	var start []ssa.Instruction
+	for _, b := range blocksIP(fn) {
+		for _, in := range b.Instrs {
+			switch x := in.(type) {
+			case *ssa.FieldAddr:
+				if fieldKey(x.X.Type(), x.Field) == "common/sgx/pcs.TDXModuleIdentity.TCBLevels" {
+					start = append(start, in)
+				}
+			case *ssa.Field:
+				if fieldKey(x.X.Type(), x.Field) == "common/sgx/pcs.TDXModuleIdentity.TCBLevels" {
+					start = append(start, in)
+				}
+			}
 		}
 	}
 	cut := NewCut()
 	nG := 0
-	for _, b := range fn.Blocks {
+	for _, b := range blocksIP(fn) {
 		ifi := lastIfOf(b)
 		if ifi == nil {
 			continue
@@ -351,13 +356,18 @@ func c18Round2(c *Ctx) {
 		}
 	}
 	if len(start) == 0 {
-		c.Fail(rule, inst, c.P.Pos(fn.Pos()), "the match of the TDX module's TCB level (nil test of the matched level) was not found in getTCBLevel")
+		c.Fail(rule, inst, c.P.Pos(fn.Pos()), "the look-up of the TDX module's TCB levels (a read of TDXModuleIdentity.TCBLevels) was not found in getTCBLevel")
 		return
 	}
-	hit := Reach(fn, nil, start, anyOf(SuccessReturns(fn)), cut)
+	var hit ssa.Instruction
+	for _, st := range start {
+		if hit = Reach(fn, st, nil, anyOf(SuccessReturns(fn)), cut); hit != nil {
+			break
+		}
+	}
 	site := c.P.Pos(fn.Pos())
 	if hit != nil {
 		site = c.P.InstrPos(hit)
 	}
-	c.Check(nG > 0 && hit == nil, rule, inst, site, "every success return after the TDX module level was matched passes Status == StatusUpToDate", "getTCBLevel can succeed for a TDX quote whose TDX module's matched TCB level is not UpToDate (OutOfDate, Revoked, …): a module that Intel's signed TCB info marks as vulnerable is accepted")
+	c.Check(nG > 0 && hit == nil, rule, inst, site, "every success return after the TDX module's TCB levels were consulted passes Status == StatusUpToDate", "getTCBLevel can succeed for a TDX quote whose TDX module's matched TCB level is not UpToDate (OutOfDate, Revoked, …): a module that Intel's signed TCB info marks as vulnerable is accepted")
 }
